@@ -8,7 +8,8 @@ import StoneVerif.Model.FeCompile
   `D` = `{"k":"struct","name":s,"extends":R|null,"fields":[F,..],"subtypes":null|{"tags":[[tag,R],..],"catch_all":b}}`
       | `{"k":"union","name":s,"closed":b,"extends":R|null,"fields":[F,..]}`
       | `{"k":"alias","name":s,"ref":R}`
-      | `{"k":"route","name":s,"version":int,"arg":R,"result":R,"error":R|null,"deprecated":null|{"by":null|[name,version]}}`
+      | `{"k":"route","name":s,"version":int,"arg":R,"result":R,"error":R|null,"deprecated":null|{"by":null|[name,version]},
+         "attrs":[[name,V],..]}` with `V` = `["n"]` | `["b",bool]` | `["i","<dec>"]` | `["f","<bits, dec>"]` | `["s",str]` | `["T",tag]`
       | `{"k":"patch","name":s,"struct":b,"closed":b,"fields":[F,..]}`
       | `{"k":"import","target":s}` | `{"k":"annot","name":s,"kind":"deprecated"|"omitted"|"preview"|"redacted"|"custom"}`
       | `{"k":"annot_type","name":s}` | `{"k":"alias_annots","name":s,"annots":[[ns|null,name],..]}`
@@ -24,6 +25,16 @@ open StoneVerif StoneVerif.FeCompile
 open StoneVerif.FeParams (Arg)
 
 namespace Driver.Comp
+
+def avalOfJson (j : Json) : Except String AVal := do
+  match j with
+  | .arr #[.str "n"] => pure .null
+  | .arr #[.str "b", .bool b] => pure (.bool b)
+  | .arr #[.str "i", .str n] => pure (.int (← Driver.FeRules.parseInt n))
+  | .arr #[.str "f", .str n] => pure (.flt (← Driver.FeRules.parseInt n).toNat)
+  | .arr #[.str "s", .str s] => pure (.str s)
+  | .arr #[.str "T", .str t] => pure (.tag t)
+  | _ => throw "bad attribute value"
 
 def litOfJson (j : Json) : Except String Arg := do
   if let some v := jopt j "int" then
@@ -121,8 +132,14 @@ def declOfJson (j : Json) : Except String Decl := do
         | none => pure (some none)
         | some (.arr #[n, v]) => do pure (some (some (← n.getStr?, ← v.getInt?)))
         | some _ => throw "bad deprecated"
+    let attrs ← match jopt j "attrs" with
+      | none => pure []
+      | some a => (← a.getArr?).toList.mapM fun p => do
+        match p with
+        | .arr #[n, v] => pure ((← n.getStr?), (← avalOfJson v))
+        | _ => throw "attr pair expected"
     pure (.route { name := ← jstr j "name", version := ← jint j "version", arg := ← refOfJson (← jobj j "arg"),
-                   result := ← refOfJson (← jobj j "result"), error := ← optRef j "error", deprecated })
+                   result := ← refOfJson (← jobj j "result"), error := ← optRef j "error", deprecated, attrs })
   | "patch" =>
     let fields ← (← jarr j "fields").toList.mapM fieldOfJson
     let isStruct ← jbool j "struct"
@@ -182,6 +199,9 @@ def errName (e : Err) : String :=
   | .crash x => "crash." ++ Driver.FeRules.excStr x
   | e => ((reprStr e).replace "StoneVerif.FeCompile.Err." "").trimAscii.toString
 
+/-- the value test of route attributes: not evaluated yet (every value passes) -/
+def vcOf (_ : Json) : Except String ValCk := pure fun _ _ _ _ _ _ => true
+
 def parseReq (j : Json) : Except String ((String → Bool) × List File) := do
   let rxPairs ← match jopt j "rx" with
     | none => pure []
@@ -195,10 +215,11 @@ def parseReq (j : Json) : Except String ((String → Bool) × List File) := do
 
 def handleCompile (j : Json) : Except String Json := do
   let (rx, files) ← parseReq j
+  let vc ← vcOf j
   let wantDenote := match jopt j "denote" with
     | some (.bool true) => true
     | _ => false
-  match compile rx files with
+  match compileFull rx vc files with
   | .ok api =>
     let den : List (String × Json) :=
       if wantDenote then
@@ -229,7 +250,7 @@ def typeWhy (rx : String → Bool) (fs : List File) (ns : String) (d : TypeDecl)
       else if !enumLegal rx fs ns d c then "enumerated-subtypes"
       else "?"
 
-def legalWhy (rx : String → Bool) (fs0 : List File) : String :=
+def legalWhy (rx : String → Bool) (vc : ValCk) (fs0 : List File) : String :=
   let fs := mergeFiles fs0
   if !namesLegal fs then "names"
   else if !importsLegal fs then "imports"
@@ -245,17 +266,21 @@ def legalWhy (rx : String → Bool) (fs0 : List File) : String :=
           | .error e => some e
           | .ok _ => none) with
       | some e => "annotations." ++ errName e
-      | none => "?"
+      | none =>
+        match checkRouteAttrsG vc (aliasS rx fs) (typeS rx fs) (fuelA fs) (fuelT fs) fs with
+        | .error e => "route-attrs." ++ errName e
+        | .ok _ => "?"
 
 /-- the hypotheses of the theorems of Props/C02Compile.lean and Props/C01Compile.lean and their decidable conclusions,
-evaluated on one input: `compile fs = .ok api`, `Legal fs`, namespace names without `/` -/
+evaluated on one input: `compileFull fs = .ok api`, `LegalFull fs`, namespace names without `/` -/
 def handleHyps (j : Json) : Except String Json := do
   let (rx, files) ← parseReq j
-  let legal := Legal rx files
+  let vc ← vcOf j
+  let legal := LegalFull rx vc files
   let common : List (String × Json) :=
     [("legal", Json.bool legal), ("ns_lexical", Json.bool (nsLexical files))] ++
-      (if legal then [] else [("why", Json.str (legalWhy rx files))])
-  match compile rx files with
+      (if legal then [] else [("why", Json.str (legalWhy rx vc files))])
+  match compileFull rx vc files with
   | .ok api =>
     pure (ok ([("compile_ok", Json.bool true), ("closed", Json.bool api.closed),
               ("denote_equal", Json.bool (denote rx files == some api))] ++ common))
